@@ -53,8 +53,11 @@ func (cr *consRenderer) block(ss []any, ind string) string {
 			body := arr(m["body"])
 			if m["tok"] == "def" {
 				b.WriteString(ind + "for v := range " + it + " {\n")
-				if m["sh"] == true {
+				switch num(m["sh"]) {
+				case 1:
 					b.WriteString(ind + "\tv := v + 100\n")
+				case 2:
+					b.WriteString(ind + "\tg := func() int { return v }\n" + ind + "\tv, w := rt.Two(v+100, 0)\n" + ind + "\tv += g()\n" + ind + "\t_ = w\n")
 				}
 				b.WriteString(ind + "\t_ = v\n" + cr.block(body, ind+"\t") + ind + "}\n")
 			} else {
@@ -366,6 +369,13 @@ func C06(c *vf.Check) {
 	c.Cov["exhaustive"] = true
 	c.Cov["bounds"] = consts
 	c.Assumptions = append(c.Assumptions, "oracle = MC_Cons.tla over CoSource.tla; native reference = Go's range-over-func over an adaptor of the same pulled iterators, required to agree on every case")
+
+	// consumers that are generators themselves (transformers): F_xf of MC_Src.tla
+	rule, bounds := c.Cov["rule"], c.Cov["bounds"]
+	runFam(c, famSpec{id: "C06", fam: "xf", name: "F_xf", sizeQ: "4", sizeT: "5", tapeQ: "2", tapeT: "3", callsQ: 6, callsT: 8,
+		keys: fullKeys, deleg: true, budget: 40, rule: "F_xf"})
+	c.Cov["rule"] = fmt.Sprint(rule) + "; plus F_xf: every GENERATOR up to MaxSize that ranges over a local iterator (for k := range it / for range it) with yields, effects, hand pulls and guarded-free break / continue / return inside the loop, the loop also inside switch clauses and if statements"
+	c.Cov["bounds"] = J{"MC_Cons": bounds, "F_xf": c.Cov["bounds"]}
 }
 
 func orEmpty(v []any) []any {
